@@ -1,0 +1,130 @@
+//go:build verif
+
+package prefix
+
+// Contracts checked by /verif/govc (contract-based deductive verification).
+// Comment-only: with the `verif` tag off this file is not even parsed.
+
+//@ func cloneAppend
+//@   props C02
+//@   panics_never
+//@   modifies nothing
+//@   ensures [len] len(res) == len(bz) + len(tail)
+//@   ensures [left] forall i int :: 0 <= i && i < len(bz) ==> res[i] == bz[i]
+//@   ensures [right] forall i int :: 0 <= i && i < len(tail) ==> res[len(bz)+i] == tail[i]
+//@   ensures [fresh] fresh(res) && res != nil
+//@   ensures [cat] extEq(bytes(res), cat(bytes(bz), bytes(tail))) && bytes(res) == cat(bytes(bz), bytes(tail))
+
+//@ func stripPrefix
+//@   props C02
+//@   requires hasPrefix(bytes(key), bytes(prefix))
+//@   panics_never
+//@   modifies nothing
+//@   ensures result == key[len(prefix):]
+//@   ensures extEq(bytes(key), cat(bytes(prefix), bytes(result))) && bytes(key) == cat(bytes(prefix), bytes(result))
+
+//@ func (Store).key
+//@   props C02
+//@   modifies nothing
+//@   ensures key != nil
+//@   ensures bytes(res) == cat(bytes(s.prefix), bytes(key)) && fresh(res)
+//@   ensures hasPrefix(bytes(res), bytes(s.prefix))
+
+// Point operations: the parent is read / written at exactly prefix++key and nowhere else.
+//@ func (Store).Get
+//@   props C02
+//@   modifies nothing
+//@   ensures kvHas[s.parent][cat(bytes(s.prefix), bytes(key))] ==> result0 != nil && bytes(result0) == kvVal[s.parent][cat(bytes(s.prefix), bytes(key))]
+//@   ensures !kvHas[s.parent][cat(bytes(s.prefix), bytes(key))] ==> result0 == nil
+//@   ensures result1 == nil
+
+//@ func (Store).Has
+//@   props C02
+//@   modifies nothing
+//@   ensures result0 == kvHas[s.parent][cat(bytes(s.prefix), bytes(key))]
+
+//@ func (Store).Set
+//@   props C02
+//@   modifies kvHas, kvVal
+//@   ensures kvHas[s.parent] == old(kvHas[s.parent])[cat(bytes(s.prefix), bytes(key)) := true]
+//@   ensures kvVal[s.parent] == old(kvVal[s.parent])[cat(bytes(s.prefix), bytes(key)) := bytes(value)]
+//@   ensures hasPrefix(cat(bytes(s.prefix), bytes(key)), bytes(s.prefix))
+
+//@ func (Store).Delete
+//@   props C02
+//@   modifies kvHas, kvVal
+//@   ensures kvHas[s.parent] == old(kvHas[s.parent])[cat(bytes(s.prefix), bytes(key)) := false]
+//@   ensures kvVal[s.parent] == old(kvVal[s.parent])
+//@   ensures hasPrefix(cat(bytes(s.prefix), bytes(key)), bytes(s.prefix))
+
+// ---- prefix iterator -------------------------------------------------------
+// pinv: representation invariant of prefixIterator: when it reports valid, the wrapped
+// iterator is positioned on an item whose key starts with the prefix.
+//@ pure pinv(it *prefixIterator) bool = it.valid ==> (itPos[it.iter] < itN[it.iter] && hasPrefix(itKey[it.iter][itPos[it.iter]], bytes(it.prefix)))
+
+//@ func newPrefixIterator
+//@   props C02
+//@   requires parent != nil
+//@   modifies nothing
+//@   ensures result != nil && fresh(result)
+//@   ensures result.iter == parent && result.prefix == prefix && result.start == start && result.end == end
+//@   ensures result.valid == (itPos[parent] < itN[parent] && hasPrefix(itKey[parent][itPos[parent]], bytes(prefix)))
+//@   ensures pinv(result)
+
+//@ func (*prefixIterator).Valid
+//@   props C02
+//@   requires iter != nil && iter.iter != nil && pinv(iter)
+//@   modifies nothing
+//@   ensures result == iter.valid
+
+//@ func (*prefixIterator).Next
+//@   props C02
+//@   requires iter != nil && iter.iter != nil && pinv(iter) && iter.valid
+//@   panics_never
+//@   modifies itPos, *iter
+//@   ensures itPos[iter.iter] == old(itPos[iter.iter]) + 1
+//@   ensures iter.iter == old(iter.iter) && iter.prefix == old(iter.prefix)
+//@   ensures iter.valid == (itPos[iter.iter] < itN[iter.iter] && hasPrefix(itKey[iter.iter][itPos[iter.iter]], bytes(iter.prefix)))
+//@   ensures pinv(iter)
+
+//@ func (*prefixIterator).Key
+//@   props C02
+//@   requires iter != nil && iter.iter != nil && pinv(iter) && iter.valid
+//@   panics_never
+//@   modifies nothing
+//@   ensures cat(bytes(iter.prefix), bytes(key)) == itKey[iter.iter][itPos[iter.iter]]
+
+//@ func (*prefixIterator).Value
+//@   props C02
+//@   requires iter != nil && iter.iter != nil && pinv(iter) && iter.valid
+//@   panics_never
+//@   modifies nothing
+//@   ensures bytes(result) == itVal[iter.iter][itPos[iter.iter]]
+
+// ---- range iteration ----------------------------------------------------------
+// The parent is asked for exactly [prefix++start, prefix++end), or, for an open end,
+// [prefix++start, succ(prefix)) where succ is PrefixEndBytes (no upper bound iff the
+// prefix is all 0xFF). pit(i) is the parent iterator wrapped by the returned iterator.
+//@ pure pit(i Iface) Iface = dyn(i, *prefixIterator).iter
+
+//@ func (Store).Iterator
+//@   props C02
+//@   requires s.parent != nil
+//@   modifies itPos, itN, itKey, itVal, itStore, itLo, itHi, itHiNil, itRev
+//@   ensures [wrap] result0 != nil && isdyn(result0, *prefixIterator) && dyn(result0, *prefixIterator) != nil && pinv(dyn(result0, *prefixIterator))
+//@   ensures [strip] bytes(dyn(result0, *prefixIterator).prefix) == bytes(s.prefix)
+//@   ensures [parent] itStore[pit(result0)] == s.parent && !itRev[pit(result0)] && itPos[pit(result0)] == 0
+//@   ensures [lo] itLo[pit(result0)] == cat(bytes(s.prefix), bytes(start))
+//@   ensures [hi] end != nil ==> !itHiNil[pit(result0)] && itHi[pit(result0)] == cat(bytes(s.prefix), bytes(end))
+//@   ensures [hi-open] end == nil ==> (itHiNil[pit(result0)] ==> allFF(bytes(s.prefix))) && (!itHiNil[pit(result0)] ==> isSucc(itHi[pit(result0)], bytes(s.prefix)))
+
+//@ func (Store).ReverseIterator
+//@   props C02
+//@   requires s.parent != nil
+//@   modifies itPos, itN, itKey, itVal, itStore, itLo, itHi, itHiNil, itRev
+//@   ensures [wrap] result0 != nil && isdyn(result0, *prefixIterator) && dyn(result0, *prefixIterator) != nil && pinv(dyn(result0, *prefixIterator))
+//@   ensures [strip] bytes(dyn(result0, *prefixIterator).prefix) == bytes(s.prefix)
+//@   ensures [parent] itStore[pit(result0)] == s.parent && itRev[pit(result0)] && itPos[pit(result0)] == 0
+//@   ensures [lo] itLo[pit(result0)] == cat(bytes(s.prefix), bytes(start))
+//@   ensures [hi] end != nil ==> !itHiNil[pit(result0)] && itHi[pit(result0)] == cat(bytes(s.prefix), bytes(end))
+//@   ensures [hi-open] end == nil ==> (itHiNil[pit(result0)] ==> allFF(bytes(s.prefix))) && (!itHiNil[pit(result0)] ==> isSucc(itHi[pit(result0)], bytes(s.prefix)))
